@@ -9,6 +9,9 @@ fn main() {
 	match args[1].as_str() {
 		"origins" => rt.block_on(origins(&args[2], &args[3])),
 		"origins-class" => origins_class(),
+		"signals" => signals(&args[2]),
+		"signals-table" => signals_table(),
+		"exitstatus" => exitstatus(&args[2]),
 		other => panic!("unknown subcommand {other}"),
 	}
 }
@@ -99,4 +102,92 @@ fn origins_class() {
 		.map(|t| json!([format!("{t:?}"), t.is_vcs(), t.is_soft()]))
 		.collect();
 	emit(&json!({"class": v}));
+}
+
+// ---------------------------------------------------------------- C19
+
+fn sig_full(s: watchexec_signals::Signal) -> String {
+	let n = s.to_nix().map(|x| x as i32);
+	format!(
+		"{s:?} d={s} n={}",
+		match n {
+			Some(n) => format!("+{n}"),
+			None => "-".into(),
+		}
+	)
+}
+
+fn parse_full(s: &str) -> String {
+	use std::str::FromStr;
+	match watchexec_signals::Signal::from_str(s) {
+		Ok(x) => format!("Ok:{}", sig_full(x)),
+		Err(_) => "Err".into(),
+	}
+}
+
+fn signals(cases: &str) {
+	for case in read_cases(cases) {
+		let s = case["s"].as_str().unwrap();
+		emit(&json!({"s": s, "parse": parse_full(s)}));
+	}
+}
+
+fn signals_table() {
+	use watchexec_signals::Signal;
+	let mut nums: Vec<i32> = (-3..=140).collect();
+	nums.extend([i32::MIN, i32::MAX, 255, 256, 1000]);
+	for n in nums {
+		let try_from = nix::sys::signal::Signal::try_from(n).ok().map(|s| s.as_str().to_owned());
+		let c = Signal::Custom(n);
+		emit(&json!({
+			"n": n,
+			"obs": format!("try={} from={} custom={} reparse={}",
+				match try_from { Some(s) => format!("+{s}"), None => "-".into() },
+				sig_full(Signal::from(n)), sig_full(c), parse_full(&c.to_string())),
+		}));
+	}
+	let firsts = [
+		Signal::Hangup, Signal::ForceStop, Signal::Interrupt, Signal::Quit, Signal::Terminate,
+		Signal::User1, Signal::User2,
+	];
+	let v: Vec<String> = firsts
+		.iter()
+		.map(|s| {
+			format!(
+				"{} serde={} reparse={}",
+				sig_full(*s),
+				serde_json::to_value(s).unwrap().as_str().unwrap(),
+				parse_full(&s.to_string())
+			)
+		})
+		.collect();
+	emit(&json!({"first": format!("[{}]", v.join(","))}));
+}
+
+fn exitstatus(cases: &str) {
+	use std::os::unix::process::ExitStatusExt;
+	use std::process::ExitStatus;
+	use watchexec_events::ProcessEnd;
+	for case in read_cases(cases) {
+		let w = case["w"].as_u64().unwrap() as i32;
+		let r = std::panic::catch_unwind(|| {
+			let p = ProcessEnd::from(ExitStatus::from_raw(w));
+			let into = std::panic::catch_unwind(|| p.into_exitstatus());
+			match into {
+				Ok(es) => {
+					let back = std::panic::catch_unwind(|| ProcessEnd::from(es));
+					format!(
+						"{p:?} into={} back={}",
+						es.into_raw(),
+						match back {
+							Ok(b) => format!("{b:?}"),
+							Err(_) => "unreachable".into(),
+						}
+					)
+				}
+				Err(_) => format!("{p:?} into=unimplemented"),
+			}
+		});
+		emit(&json!({"w": w, "obs": r.unwrap_or_else(|_| "unreachable".into())}));
+	}
 }
